@@ -105,6 +105,9 @@ type ScriptConn struct {
 	chunks  []int // sizes of successive reads; 0 or exhausted = as much as asked
 	chunkI  int
 	EndErr  error // returned when the input is exhausted (default io.EOF)
+	// EOFWithData makes the Read that delivers the last input bytes return
+	// them together with EndErr (an io.Reader may do that).
+	EOFWithData bool
 	rfault  *ReadFault
 	rfired  bool
 	rferr   error
@@ -289,6 +292,12 @@ func (c *ScriptConn) Read(p []byte) (int, error) {
 	c.pos += n
 	c.TotalIn += n
 	var err error
+	if c.EOFWithData && c.pos == len(c.in) && !(faultArmed && c.rfault.Offset > c.TotalIn) {
+		err = c.EndErr
+		if err == nil {
+			err = io.EOF
+		}
+	}
 	if faultArmed && c.rfault.WithData && c.TotalIn == c.rfault.Offset {
 		c.rfired = true
 		c.BeforeFault = c.TotalIn - n
